@@ -200,10 +200,10 @@ package dag
 //@   assume-benign
 //@ func (dag).getHighestClockValue
 //@   prop C08
-//@   assume-benign
+//@   modifies nothing
 //@ func (dag).setHighestClockValue
 //@   prop C08
-//@   assume-benign
+//@   modifies nothing
 //@ func (dag).getNumberOfTransactions
 //@   prop C08
 //@   assume-benign
@@ -212,11 +212,11 @@ package dag
 //@   assume-benign
 //@ func (dag).setHead
 //@   prop C08
-//@   assume-benign
+//@   modifies nothing
 // The bookkeeping of dag.add: head, highest clock and transaction count follow the transactions added.
 //@ func (*dag).add
 //@   prop C08
-//@   assume-benign
+//@   modifies nothing
 //@   axiom forall a, b hash.SHA256Hash :: (forall k int :: 0 <= k && k < 32 ==> a[k] == b[k]) ==> a.Equals(b)
 //@   loop 1 invariant (forall j int :: 0 <= j && j < 32 ==> headRef[j] == 0) || (exists k int :: 0 <= k && k < $i && !isNilIface(transactions[k]) && same(headRef, transactions[k].Ref()) && transactions[k].Clock() == highestLC)
 //@   loop 1 invariant highestLC >= ret(call (dag).getHighestClockValue #1) || (exists k int :: 0 <= k && k < $i && !isNilIface(transactions[k]) && transactions[k].Clock() == 0)
@@ -265,7 +265,7 @@ package dag
 // a failure of either is reported (and rolls the write transaction back in Add).
 //@ func (*state).updateState
 //@   prop C08
-//@   assume-benign
+//@   modifies nothing
 //@   ensures [both-digests-updated-in-this-tx] isNilIface(result) ==> did(call (*treeStore).write #1) && isNilIface(ret(call (*treeStore).write #1)) && did(call (*treeStore).write #2) && isNilIface(ret(call (*treeStore).write #2))
 //@        && arg(call (*treeStore).write #1, 0) == s.ibltTree && arg(call (*treeStore).write #2, 0) == s.xorTree
 //@        && arg(call (*treeStore).write #1, 1) == tx && arg(call (*treeStore).write #2, 1) == tx
@@ -294,7 +294,7 @@ package dag
 // dirty leaves are then written in the caller's transaction.
 //@ func (*treeStore).write
 //@   prop C08
-//@   assume-benign
+//@   modifies nothing
 //@   call (tree.Tree).Insert #1 requires [reference-at-its-clock-under-the-lock] did(call (*sync.Mutex).Lock #1) && same(arg(1), transaction.Ref()) && arg(2) == transaction.Clock() && arg(0) == store.tree
 //@   ensures [persisted-in-the-callers-tx] did(call (*treeStore).writeWithoutLock #1) && arg(call (*treeStore).writeWithoutLock #1, 1) == tx && result == ret(call (*treeStore).writeWithoutLock #1)
 //@   ensures [lock-released] did(call (*sync.Mutex).Unlock #1)
@@ -393,7 +393,7 @@ package dag
 //@   assume-benign
 //@ func (*notifier).logNotificationResponse
 //@   prop C14
-//@   assume-benign
+//@   modifies nothing
 //@ func (*notifier).retry
 //@   prop C14
 //@   assume-benign
@@ -415,13 +415,13 @@ package dag
 
 //@ func (*notifier).writeEvent
 //@   prop C14
-//@   assume-benign
+//@   modifies nothing
 //@   ensures [stored-under-the-events-hash] isNilIface(result) ==> did(call (go-stoabs.Writer).Put #1) && isNilIface(ret(call (go-stoabs.Writer).Put #1)) && arg(call (go-stoabs.Writer).Put #1, 0) == writer
 //@        && same(arg(call (crypto/hash.SHA256Hash).Slice #1, 0), event.Hash)
 
 //@ func (*notifier).readEvent
 //@   prop C14
-//@   assume-benign
+//@   modifies nothing
 //@   ensures [event-iff-ok] isNilIface(result.1) ==> result.0 != nil
 
 // Deletes exactly the entry of this hash, in a write on the notifier's own shelf.
@@ -531,7 +531,7 @@ package dag
 //@   ensures isNilIface(result.2) ==> result.0 != nil
 //@ func resolvePublicKey
 //@   prop C06 C17
-//@   assume-benign
+//@   modifies nothing
 //@   ensures [key-of-the-document-resolved-for-this-metadata] isNilIface(result.1) ==> did(call (resolver.DIDResolver).Resolve #1) && isNilIface(ret(call (resolver.DIDResolver).Resolve #1).2)
 //@        && arg(call (resolver.DIDResolver).Resolve #1, 0) == didResolver && arg(call (resolver.DIDResolver).Resolve #1, 2) == &metadata
 //@        && same(arg(call (resolver.DIDResolver).Resolve #1, 1), ret(call resolver.GetDIDFromURL #1).0) && arg(call resolver.GetDIDFromURL #1, 0) == kid
@@ -541,7 +541,7 @@ package dag
 //@        && same(arg(call (did.VerificationMethods).FindByID #1, 1), *ret(call did.ParseDIDURL #1).0) && arg(call did.ParseDIDURL #1, 0) == kid
 //@ func (SourceTXKeyResolver).ResolvePublicKey
 //@   prop C06 C17
-//@   assume-benign
+//@   modifies nothing
 // while the referenced transactions are tried, every resolve so far answered "not found" (any other error is final)
 //@   loop 1 invariant !did(call resolvePublicKey #1) || ret(call resolvePublicKey #1).1 == resolver.ErrNotFound
 //@   call resolvePublicKey #1 requires [resolved-as-of-a-referenced-transaction] arg(0) == r.Resolver && arg(1) == kid && arg(2).SourceTransaction == &h
